@@ -217,8 +217,8 @@ def run(ctx):
         strings = [c[1] for c in ctx.replay['cases'] if c[0] == 'parse']
         live = [c[1] for c in ctx.replay['cases'] if c[0] == 'live']
     else:
-        strings = gen_strings(ctx, 3000 if ctx.quick() else 40000)
-        live = gen_live(ctx, 10 if ctx.quick() else 60, 150 if ctx.quick() else 1500)
+        strings = gen_strings(ctx, 12000 if ctx.quick() else 80000)
+        live = gen_live(ctx, 40 if ctx.quick() else 150, 600 if ctx.quick() else 4000)
 
     # ---------------------------------------------------------------- (a) the parser
     n_bad = 0
